@@ -140,6 +140,39 @@ def run(ctx):
                 steps.append({"op": "list", "band": int(bid), "subtree": s})
                 queries.append((int(bid), s))
         cases.append({"id": f"l{t}", "layout": layout, "queries": queries, "steps": steps})
+    # exhaustive over the STATE of three stacked bands (fixed entries: each older band reaches further)
+    fixed = {0: [["/", "/a"], ["/ab", "/b", "/a/x"], ["/a/y", "/b/ñ"]], 1: [["/", "/a", "/ab"], ["/b", "/a/x"]], 2: [["/", "/a"]]}
+    import itertools
+    states = ["absent", "complete", "incomplete", "headless", "unopenable", "unopenable_closed", "nohunks_incomplete"]
+    combos = list(itertools.product(states, repeat=3))
+    if quick:
+        combos = [c for k, c in enumerate(combos) if (k + ctx.seed) % 2 == 0 or "headless" in c or "absent" in c]
+    for k, combo in enumerate(combos):
+        layout = {"bands": {}}
+        for bid, st in enumerate(combo):
+            if st == "absent":
+                continue
+            hs = {str(n): [{"apath": p, "kind": "File" if p != "/" else "Dir", "mtime": bid} for p in h] for n, h in enumerate(fixed[bid])}
+            band = {"hunks": {} if st.startswith("nohunks") else hs}
+            if st == "complete":
+                band.update(head=True, tail=True)
+            elif st in ("incomplete", "nohunks_incomplete"):
+                band.update(head=True, tail=False)
+            elif st == "headless":
+                band.update(head=False, tail=False)
+            elif st == "unopenable":
+                band.update(head={"start_time": 1, "band_format_version": "99.0.0"}, tail=False)
+            else:
+                band.update(head={"start_time": 1, "band_format_version": "99.0.0"}, tail=True)
+            layout["bands"][str(bid)] = band
+        if not layout["bands"]:
+            continue
+        steps = [{"op": "write_archive", "layout": layout}]
+        queries = []
+        for bid in sorted(layout["bands"], key=int):
+            steps.append({"op": "list", "band": int(bid)})
+            queries.append((int(bid), "/"))
+        cases.append({"id": f"x{k}", "layout": layout, "queries": queries, "steps": steps})
     res = ctx.cvh_run(cases)
     # ---- direct oracle + collect implementation answers
     model_items = []
